@@ -74,6 +74,9 @@ func run(c *harness.Ctx, i int) {
 	failProb := []int{0, 0, 20, 50}[rng.Intn(4)]
 
 	ms := dsu.NewMemStore("up")
+	// the upstream hands out decoded chunks, or (as a compressed store opened without verification does) chunks in
+	// storage form that are decoded when first used - by every caller that shares the result, at the same time
+	ms.Lazy = i%3 == 1
 	var ids []desync.ChunkID
 	var datas [][]byte
 	for j := 0; j < nIDs; j++ {
@@ -222,6 +225,9 @@ func run(c *harness.Ctx, i int) {
 					op.Err = wq.StoreChunk(op.Chunk)
 				}
 				op.T1 = dsu.Tick()
+				if pl.kind == "get" && op.Err == nil && op.Chunk != nil {
+					op.Chunk.Data() // callers use what they get
+				}
 				mu.Lock()
 				ops = append(ops, op)
 				mu.Unlock()
